@@ -389,3 +389,51 @@ Section Frame.
     apply fr_step_core. apply HP_out. apply HP_hints. exact H.
   Qed.
 End Frame.
+
+(* ---- using the generic lemmas for a concrete predicate -------------------------------------
+   [fr_go P tac]: the goal is  P e  with [P] a folded (named) predicate and [e]
+   a state expression; peels function applications off [e] with the generic
+   lemmas, closing their closure premises with [tac] (which must solve goals
+   of the form  forall .., P s -> P (primitive update of s)).  Stops at the
+   first expression it knows nothing about. *)
+Ltac fr_lemmas P :=
+  first
+  [ apply (fr_get_or_create_invocation P) | apply (fr_remove_if_empty P) | apply (fr_increment_executing P)
+  | apply (fr_decrement_executing P) | apply (fr_update_first_priority P) | apply (fr_enqueue P)
+  | apply (fr_remove_queued_from_invocation P) | apply (fr_clear_last_invocation P) | apply (fr_set_last_invocation P)
+  | apply (fr_dequeue_worker P) | apply (fr_maybe_dequeue P) | apply (fr_wake_up P) | apply (fr_assign_unqueued P)
+  | apply (fr_report_non_final_stage_change P) | apply (fr_assign_queued P) | apply (fr_assign_next_queued_task P)
+  | apply (fr_schedule P) | apply (fr_new_operation P) | apply (fr_maybe_start_cleanup P) | apply (fr_complete_task P)
+  | apply (fr_operation_remove P) | apply (fr_cancel_all_queued P) | apply (fr_scq_remove P) | apply (fr_mark_terminating P)
+  | apply (fr_remove_stale_worker P) | apply (fr_run_entry P) | apply (fr_cleanup_run P) | apply (fr_enter P)
+  | apply (fr_stream_iter P) | apply (fr_wait_execution_begin P) | apply (fr_stream_return P) | apply (fr_ret P)
+  | apply (fr_exec_start P) | apply (fr_finish_sync P) | apply (fr_sync_return_exec P) | apply (fr_sync_return_idle P)
+  | apply (fr_sync_return_err P) | apply (fr_sync_loop P) | apply (fr_get_next_task P) | apply (fr_get_current_or_next P)
+  | apply (fr_add_scq P) | apply (fr_add_pq P) | apply (fr_sync_start P) | apply (fr_kill_lookup P)
+  | apply (fr_auto_returns P) | apply (fr_terminate_fold P) | apply (fr_step_core P) ].
+
+Ltac is_prim_head f :=
+  lazymatch f with
+  | emit _ => idtac | panic _ => idtac | upd_task _ _ => idtac | upd_op _ _ => idtac | upd_inv _ _ => idtac
+  | upd_scq _ _ => idtac | upd_worker _ _ => idtac | upd_pq _ _ => idtac | set_call _ _ => idtac
+  | set _ _ => idtac
+  end.
+
+Ltac fr_prim P tac :=
+  lazymatch goal with
+  | |- P (?f ?s) =>
+    is_prim_head f;
+    let H := fresh "Hprim" in
+    assert (H : forall s0, P s0 -> P (f s0)) by tac;
+    apply H; clear H
+  end.
+
+Ltac fr_go P tac :=
+  cbv beta iota zeta; cbn [fst snd];
+  repeat first [ assumption | fr_fold | fr_destruct_head | (fr_lemmas P; [ tac .. | ]) | fr_prim P tac ].
+
+(* primitive updates never touch a record field they do not name *)
+Ltac prim_unfold :=
+  unfold panic, emit, upd_task, upd_op, upd_inv, upd_worker, upd_scq, upd_pq, set_call in *.
+Ltac prim_cases :=
+  repeat match goal with |- context[match ?x with _ => _ end] => destruct x end.
